@@ -69,7 +69,7 @@ def seeded_problem(cls_name, name="g"):
     """a small hand-built problem of the given class exercising the class-specific fields"""
     from unified_planning.shortcuts import (Problem, UserType, Fluent, BoolType, IntType, RealType, Object,
                                             InstantaneousAction, DurativeAction, GlobalStartTiming, Always, Not,
-                                            MinimizeActionCosts, Int, StartTiming, EndTiming)
+                                            MinimizeActionCosts, Int, StartTiming, EndTiming, ClosedTimeInterval)
     from unified_planning.model.contingent import ContingentProblem, SensingAction
     from unified_planning.model.htn import HierarchicalProblem, Method
     from unified_planning.model.multi_agent import MultiAgentProblem, Agent
@@ -121,6 +121,8 @@ def seeded_problem(cls_name, name="g"):
     d.add_condition(StartTiming(), at(d.parameter("l")))
     d.add_effect(EndTiming(), b, True)
     d.add_increase_effect(EndTiming(), tot, 1)
+    heat = p.add_fluent("heat", RealType(), default_initial_value=0)
+    d.add_increase_continuous_effect(ClosedTimeInterval(StartTiming(), EndTiming()), heat, 1)
     p.add_action(d)
     p.set_initial_value(at(p.object("l1")), True)
     p.add_goal(at(p.object("l2")))
